@@ -231,6 +231,52 @@ def _rule_r24(text, log):
     return text
 
 
+def _rule_r25(text, log, types):
+    """rule DEREF:T1,T2: a variable declared `name: &T` (parameter or annotated let) that is a direct operand of a
+    binary `* + -` is dereferenced: `name * x` -> `(*name) * x`.  For the Copy shim types named in the rule the
+    reference and value operators of the dependency agree; Verus crashes on operators with reference operands."""
+    m = rs.mask(text)
+    names = set(re.findall(r'\b([a-z_][a-z0-9_]*)\s*:\s*&\s*(?:%s)\b' % '|'.join(re.escape(t) for t in types), m))
+    if not names:
+        return text
+    n = 0
+    out, last = [], 0
+    for mm in re.finditer(r'\b(%s)\b' % '|'.join(sorted(names)), m):
+        a, b = mm.start(), mm.end()
+        # not a declaration, field, call, index or path segment
+        j = b
+        while j < len(m) and m[j] in ' \t\n':
+            j += 1
+        nxt = m[j] if j < len(m) else ''
+        i = a - 1
+        while i >= 0 and m[i] in ' \t\n':
+            i -= 1
+        prv = m[i] if i >= 0 else ''
+        if nxt in ':.([' or prv in '.&:|' or (nxt == '-' and m[j:j + 2] == '->'):
+            continue
+        binary_after = nxt in '*+-' and m[j:j + 2] not in ('+=', '-=', '*=')
+        binary_before = False
+        if prv in '*+-':
+            k = i - 1
+            while k >= 0 and m[k] in ' \t\n':
+                k -= 1
+            binary_before = k >= 0 and (m[k].isalnum() or m[k] in '_)]')
+        elif prv == '*':
+            continue
+        if prv == '*' and not binary_before:
+            continue   # already dereferenced
+        if not (binary_after or binary_before):
+            continue
+        out.append(text[last:a])
+        out.append('(*%s)' % mm.group(1))
+        last = b
+        n += 1
+    out.append(text[last:])
+    if n:
+        log.append(('R25', n))
+    return ''.join(out)
+
+
 _UNARY_PREV = set('(,=[{;<>+-*/%!&|:?')
 
 
@@ -844,7 +890,11 @@ def apply_rewrites(text, log, rules, keep_eq=False):
         text = _rule_r12(text, log)
     if 'R8' in rules:
         text = _rule_r8(text, log)
-    return _apply_subst(text, log, rules)
+    text = _apply_subst(text, log, rules)
+    for r in rules:
+        if r.startswith('DEREF:') and re.search(r'\bfn\b', text):
+            text = _rule_r25(text, log, [t.strip() for t in r[6:].split(',') if t.strip()])
+    return text
 
 
 def _apply_subst(text, log, rules):
@@ -984,6 +1034,118 @@ def bitflags_model(src, name, log):
         log.append(('BF', len(order)))
         return '\n'.join(out), raw, (src.count('\n', 0, mm.start()) + 1, src.count('\n', 0, close) + 1)
     raise Unsupported('bitflags struct %s not found' % name)
+
+
+def _split_top(txt):
+    """split at top-level commas (depth 0 w.r.t. () [] {} <>); txt is source, a mask of it is used for scanning"""
+    m = rs.mask(txt)
+    parts, depth, last = [], 0, 0
+    for i, c in enumerate(m):
+        if c in '([{':
+            depth += 1
+        elif c in ')]}':
+            depth -= 1
+        elif c == '<' and i + 1 < len(m) and (m[i - 1].isalnum() or m[i - 1] in '_:'):
+            depth += 1
+        elif c == '>' and depth > 0 and m[i - 1] != '-' and m[i - 1] != '=':
+            depth -= 1
+        elif c == ',' and depth == 0:
+            parts.append(txt[last:i])
+            last = i + 1
+    if txt[last:].strip():
+        parts.append(txt[last:])
+    return [x.strip() for x in parts]
+
+
+def inline_helper(text, src, name, log):
+    """rule IN: a call of a helper function that is NOT among the extracted items (typically one introduced by a
+    refactoring) is replaced by the helper's body with the arguments bound to the parameters:
+        recv.NAME(a, b)  ->  ({ let __in_recv = recv; let __in_0 = a; let __in_1 = b; let p: T = __in_0; let q: U = __in_1; BODY })
+    (`self` in BODY -> `__in_recv`, `Self::` -> the impl's type).  Only helpers whose body has no `return` / `?` and whose
+    parameters are plain identifiers are inlined; anything else is left alone (the verifier then stays undecided)."""
+    m = rs.mask(src)
+    dm = None
+    for cand in re.finditer(r'\bfn\s+%s\s*(<[^>{(]*>)?\s*\(' % re.escape(name), m):
+        dm = cand
+        break
+    if dm is None:
+        return text, 0
+    po = dm.end() - 1
+    pc = rs.match_brace(m, po)
+    bo = m.find('{', pc)
+    semi = m.find(';', pc)
+    if bo < 0 or (0 <= semi < bo):
+        return text, 0
+    bc = rs.match_brace(m, bo)
+    body = src[bo + 1:bc]
+    mb = m[bo + 1:bc]
+    if re.search(r'\breturn\b', mb) or re.search(r'\?\s*[;.)\n]', mb):
+        return text, 0
+    params = _split_top(src[po + 1:pc])
+    has_self = bool(params) and re.fullmatch(r'&?\s*(?:\'[a-z_]+\s+)?(?:mut\s+)?self', params[0]) is not None
+    if has_self:
+        params = params[1:]
+    plist = []
+    for prm in params:
+        pm = re.fullmatch(r'(mut\s+)?([a-z_][a-z0-9_]*)\s*:\s*(.+)', prm, re.S)
+        if not pm:
+            return text, 0
+        plist.append((pm.group(1) or '', pm.group(2), pm.group(3).strip()))
+    # type of the enclosing impl (for `Self::`)
+    ty = None
+    for im in re.finditer(r'\bimpl\b[^{;]*\{', m):
+        ic = rs.match_brace(m, im.end() - 1)
+        if im.end() <= dm.start() < ic:
+            hm = re.search(r'(?:for\s+)?([A-Z][A-Za-z0-9_]*)\s*(?:<[^>]*>)?\s*\{$', src[im.start():im.end()].strip())
+            ty = hm.group(1) if hm else None
+    if has_self:
+        mbody = rs.mask(body)
+        out, last = [], 0
+        for sm in re.finditer(r'\bself\b', mbody):
+            out.append(body[last:sm.start()])
+            out.append('__in_recv')
+            last = sm.end()
+        out.append(body[last:])
+        body = ''.join(out)
+    if ty:
+        body = re.sub(r'\bSelf::', ty + '::', body)
+    n = 0
+    while True:
+        mt = rs.mask(text)
+        if has_self:
+            cm = None
+            for c2 in re.finditer(r'(\b[A-Za-z_][A-Za-z0-9_]*(?:\s*\.\s*[a-z_][a-z0-9_]*)*)\s*\.\s*%s\s*\(' % re.escape(name), mt):
+                cm = c2
+                break
+        else:
+            cm = None
+            for c2 in re.finditer(r'(?<![A-Za-z0-9_.])(?:Self::|[A-Z][A-Za-z0-9_]*::)?%s\s*\(' % re.escape(name), mt):
+                if re.search(r'\bfn\s+$', mt[:c2.start()]):
+                    continue
+                cm = c2
+                break
+        if cm is None:
+            break
+        op = cm.end() - 1
+        cp = rs.match_brace(mt, op)
+        args = _split_top(text[op + 1:cp])
+        if len(args) != len(plist):
+            break
+        binds = []
+        if has_self:
+            binds.append('let __in_recv = %s;' % cm.group(1).strip())
+        for k, a in enumerate(args):
+            binds.append('let __in_%d = %s;' % (k, a))
+        for k, (mu, pn, pt) in enumerate(plist):
+            binds.append('let %s%s: %s = __in_%d;' % (mu, pn, pt, k))
+        rep = '({ ' + ' '.join(binds) + '\n' + body + ' })'
+        text = text[:cm.start()] + rep + text[cp + 1:]
+        n += 1
+        if n > 20:
+            break
+    if n:
+        log.append(('IN:%s' % name, n))
+    return text, n
 
 
 class Region:
@@ -1174,7 +1336,7 @@ def parse_unit(path):
     return lines
 
 
-def generate(unit_path, repo=REPO):
+def generate(unit_path, repo=REPO, inline=()):
     """Returns dict(text=..., regions=[Region], items=[{path,file,sha,rewrites}], labels={line:label}, preludes=[..])"""
     lines = parse_unit(unit_path)
     out = []          # generated lines
@@ -1343,7 +1505,21 @@ def generate(unit_path, repo=REPO):
                     text = apply_rewrites(raw, log, header['rules'])
                     text = splice_trait(text, ann, log)
                 else:
-                    text = apply_rewrites(raw, log, header['rules'], keep_eq=bool(opts.get('eq')))
+                    raw_in = raw
+                    if it['kind'] == 'fn' and it['body_open'] is not None:
+                        for hn in inline:
+                            if re.search(r'\b%s\s*\(' % re.escape(hn), rs.mask(raw_in)) and not re.search(r'\bfn\s+%s\b' % re.escape(hn), rs.mask(raw_in)[:rs.mask(raw_in).find('{')]):
+                                raw_in, _n = inline_helper(raw_in, src, hn, log)
+                                if not _n:
+                                    # the helper may live in another file of the crate
+                                    import glob as _glob
+                                    for of in sorted(_glob.glob(os.path.join(repo, 'src', '**', '*.rs'), recursive=True)):
+                                        if of == fpath:
+                                            continue
+                                        raw_in, _n = inline_helper(raw_in, open(of).read(), hn, log)
+                                        if _n:
+                                            break
+                    text = apply_rewrites(raw_in, log, header['rules'], keep_eq=bool(opts.get('eq')))
                     if it['kind'] == 'fn' and it['body_open'] is not None:
                         text = splice_fn(text, ann, log)
                     lit_sources.append(text)
